@@ -16,11 +16,14 @@ resolution (Spec/Scope.lean).
         reply  OK <T|F: uses with / direct eval> [ [path name [ [kind scopePath name] … ]] … ]
   agree <og> <sf> <kw> <tree>      ScopeAgree of the model's scope tree with Spec.Scope
         reply  OK T|F
+  preserved <og> <sf> <kw> <tree>  does the model's renaming preserve the binding structure (Spec.Scope of the renamed
+                                   tree against Spec.Scope of the original, Proofs/ObfRename.lean `bindingPreserved`)
+        reply  OK T|F
   errors: ERR <PythonExceptionClass|unmodelled|fuel> <detail>,  ERR request …
 
 Paths are written root first as `attr.index/attr.index/…` (the empty path is the empty string).
 -/
-import CalmVerif.Proofs.ObfAgree
+import CalmVerif.Proofs.ObfRename
 import CalmVerif.Util.Loop
 open CalmVerif CalmVerif.Unparse CalmVerif.Proto CalmVerif.Obf
 
@@ -139,6 +142,15 @@ def handle (line : String) : String :=
       match prewalkHook tablesGen fl tree with
       | .error e => errStr e
       | .ok fin => if scopeAgree fin tree then "OK T" else "OK F"
+  | "preserved" :: og :: sf :: kw :: rest =>
+    match parseFlags og sf kw with
+    | none => "ERR request bad flags"
+    | some fl => withTree rest fun tree =>
+      match prewalkHook tablesGen fl tree with
+      | .error e => errStr e
+      | .ok fin =>
+        if bindingIso fl.obfuscateGlobals (Spec.Scope.resolveProgram tree)
+            (Spec.Scope.resolveProgram (renameVal fin [] tree)) then "OK T" else "OK F"
   | "frags" :: rsName :: ind :: og :: sf :: kw :: rest =>
     match findRuleSet rsName, parseIndent ind, parseFlags og sf kw with
     | none, _, _ => "ERR request unknown rule set"
